@@ -1144,3 +1144,38 @@ def unawait(t):
                     return r
         return cur
     return cur
+
+
+def named_root(body, operand, limit=12):
+    """follow refs / derefs / Deref::deref(_mut) calls / copies back to the first local that carries a source name"""
+    p = operand.get('cp') or operand.get('mv') or operand if isinstance(operand, dict) else {'l': operand}
+    l = p['l']
+    for _ in range(limit):
+        if body.name_of(l) is not None:
+            return l
+        ds = body.defs().get(l, [])
+        if len(ds) != 1:
+            return None
+        d = ds[0]
+        if d[0] == 'call':
+            t = d[2]
+            if t.get('name') in ('deref', 'deref_mut', 'as_ref', 'as_mut', 'borrow', 'borrow_mut') and t['args']:
+                a = t['args'][0]
+                ap = a.get('cp') or a.get('mv')
+                if ap is None:
+                    return None
+                l = ap['l']
+                continue
+            return None
+        rv = d[3]
+        if 'ref' in rv:
+            l = rv['ref']['l']
+            continue
+        if 'use' in rv:
+            sp = rv['use'].get('cp') or rv['use'].get('mv')
+            if sp is None:
+                return None
+            l = sp['l']
+            continue
+        return None
+    return None
